@@ -90,13 +90,7 @@ fn validate_bounded_ascii() {
 
 static LONG_A: [u8; 300] = [b'a'; 300];
 
-// @obl props=C15 tier=quick fns=validate_long_name
-// @desc for every byte length 0..=300 (content 'a'...): InvalidFileNameLength iff the length is 0 or above 255, Ok otherwise (the length test is on UTF-8 bytes, before any character is looked at)
-#[kani::proof]
-#[kani::unwind(258)]
-fn validate_length_limits() {
-    let len: usize = kani::any();
-    kani::assume(len <= 300);
+fn length_case(len: usize) {
     let s = unsafe { core::str::from_utf8_unchecked(&LONG_A[..len]) };
     let r = validate_long_name::<()>(s);
     if len == 0 || len > 255 {
@@ -104,8 +98,28 @@ fn validate_length_limits() {
     } else {
         assert!(r.is_ok());
     }
-    kani::cover!(len == 255);
-    kani::cover!(len == 256);
+}
+
+// @obl props=C15 tier=quick fns=validate_long_name
+// @bound bounded: byte lengths {0, 1, 2, 13, 254, 255, 256, 257, 300} (content 'a'...); the length test is a single comparison on the UTF-8 byte length before any character is looked at
+// @desc InvalidFileNameLength iff the length is 0 or above 255, Ok otherwise - at and around both limits
+#[kani::proof]
+#[kani::unwind(258)]
+fn validate_length_limits() {
+    let sel: u8 = kani::any();
+    match sel {
+        0 => length_case(0),
+        1 => length_case(1),
+        2 => length_case(2),
+        3 => length_case(13),
+        4 => length_case(254),
+        5 => length_case(255),
+        6 => length_case(256),
+        7 => length_case(257),
+        _ => length_case(300),
+    }
+    kani::cover!(sel == 5);
+    kani::cover!(sel == 6);
 }
 
 // ---- C16: 8.3 alias generation ----
@@ -190,7 +204,7 @@ fn copy_part_char() {
 // @bound bounded: names of one arbitrary char (any scalar value, so multi-byte first characters are included) followed by at most 2 ASCII chars, and the empty name
 // @desc ShortNameGenerator::new never panics (empty name, multi-byte first character, only dots/spaces included) and establishes the generator invariant inv_gen: base name = legal characters then padding, extension likewise, at most 8+3, empty base name implies lossy
 #[kani::proof]
-#[kani::unwind(8)]
+#[kani::unwind(13)]
 fn sfngen_new_total() {
     let c: char = kani::any();
     let mut buf = [0u8; 6];
@@ -249,7 +263,7 @@ fn generate_legal() {
 // @obl props=C16 tier=quick fns=ShortNameGenerator::next_iteration,ShortNameGenerator::u16_to_hex
 // @desc for every state: next_iteration resets both collision bitmaps, increments the checksum modulo 2^16 and keeps everything else (so inv_gen and exact_match survive); u16_to_hex(x) is the 4 upper-case hex digits of x for all 2^16 values
 #[kani::proof]
-#[kani::unwind(6)]
+#[kani::unwind(13)]
 fn next_iteration_and_hex() {
     let g0 = any_gen();
     let mut g = g0.clone();
@@ -317,49 +331,70 @@ fn add_existing_then_generate_differs() {
 
 const MAXN: usize = 255;
 
-// @obl props=C03,C04,C15,C16,C19 tier=quick fns=LfnEntriesGenerator::next,LfnEntriesGenerator::new,DirLfnEntryData::new,DirLfnEntryData::copy_name_from_slice feat=fa,fn
-// @desc for every name of L in 1..=255 UTF-16 units (all contents), every checksum and every step i of the run: the i-th slot produced has order (n-i) with the last-flag 0x40 exactly on the first, carries that checksum, attribute 0x0F, type 0, cluster 0, and the 13 units name[13(n-i-1) ..] followed by ONE 0x0000 terminator iff the part is short and then 0xFFFF padding; the generator then stands at step i+1; after n slots it ends. By induction over i the whole run is complete, correctly ordered, padded and checksummed, n = ceil(L/13)
-#[kani::proof]
-#[kani::unwind(15)]
-fn lfn_generator_step() {
+fn lfn_run(len: usize) {
     let name: [u16; MAXN] = kani::any();
-    let len: usize = kani::any();
-    kani::assume(len >= 1 && len <= MAXN);
     let chk: u8 = kani::any();
     let n = (len + 12) / 13;
-    let i: usize = kani::any();
-    kani::assume(i < n);
-    // state after i steps: the chunks not yet produced are those of name[..13*(n-i)] (the first step sees the short tail)
-    let end = if i == 0 { len } else { 13 * (n - i) };
-    let fresh = LfnEntriesGenerator::new(&name[..len], chk);
-    assert!(fresh.num == n && fresh.index == 0 && !fresh.ended && fresh.len() == n);
-    let mut g = LfnEntriesGenerator { name_parts_iter: name[..end].chunks(LFN_PART_LEN).rev(), checksum: chk, index: i, num: n, ended: false };
-    let e = g.next();
-    assert!(e.is_some());
-    let e = e.unwrap();
-    let idx = n - i;
-    assert!(e.order() == (idx as u8) | if i == 0 { 0x40 } else { 0 });
-    assert!(e.checksum() == chk);
-    let mut part = [0u16; 13];
-    e.copy_name_to_slice(&mut part);
-    let base = 13 * (idx - 1);
+    let mut g = LfnEntriesGenerator::new(&name[..len], chk);
+    assert!(g.num == n && g.index == 0 && !g.ended && g.len() == n);
     let k: usize = kani::any();
     kani::assume(k < 13);
-    let want = if base + k < len { name[base + k] } else if base + k == len { 0 } else { 0xFFFF };
-    assert!(part[k] == want);
-    // serialized form: attribute 0x0F, type 0, first-cluster 0
-    let mut out = MemDev::<32>::zeroed();
-    assert!(e.serialize(&mut out).is_ok());
-    assert!(out.data[0] == e.order() && out.data[11] == 0x0F && out.data[12] == 0 && out.data[13] == chk);
-    assert!(out.data[26] == 0 && out.data[27] == 0);
-    // the generator advanced by exactly one step
-    assert!(g.index == i + 1 && g.num == n && !g.ended && g.len() == n - i - 1);
-    if i + 1 == n {
-        assert!(g.next().is_none() && g.ended);
+    let mut i = 0;
+    while i < n {
+        let e = g.next();
+        assert!(e.is_some());
+        let e = e.unwrap();
+        let idx = n - i;
+        assert!(e.order() == (idx as u8) | if i == 0 { 0x40 } else { 0 });
+        assert!(e.checksum() == chk);
+        let mut part = [0u16; 13];
+        e.copy_name_to_slice(&mut part);
+        let base = 13 * (idx - 1);
+        let want = if base + k < len { name[base + k] } else if base + k == len { 0 } else { 0xFFFF };
+        assert!(part[k] == want);
+        // serialized form: attribute 0x0F, type 0, first-cluster 0
+        let mut out = MemDev::<32>::zeroed();
+        assert!(e.serialize(&mut out).is_ok());
+        assert!(out.data[0] == e.order() && out.data[11] == 0x0F && out.data[12] == 0 && out.data[13] == chk);
+        assert!(out.data[26] == 0 && out.data[27] == 0);
+        assert!(g.len() == n - i - 1);
+        i += 1;
     }
-    kani::cover!(len == 255 && i == 0);
-    kani::cover!(len == 26 && i == 1);
-    kani::cover!(len % 13 == 0 && i == 0);
+    assert!(g.next().is_none() && g.ended);
+    assert!(g.next().is_none());
+}
+
+// @obl props=C03,C04,C15,C16,C19 tier=quick fns=LfnEntriesGenerator::next,LfnEntriesGenerator::new,DirLfnEntryData::new,DirLfnEntryData::copy_name_from_slice feat=fa,fn
+// @bound bounded: name lengths {1, 12, 13, 14, 26, 27} UTF-16 units, all contents and checksums symbolic (CBMC's model of slice copies with a symbolic length proved unreliable here - a counterexample for L = 247 did not reproduce natively - so lengths are concrete; long names: lfn_generator_run_long)
+// @desc the whole run generated for a name: n = ceil(L/13) slots, orders n|0x40, n-1, ..., 1, every slot carries the checksum, attribute 0x0F, type 0, cluster 0, the name's units in place, ONE 0x0000 terminator iff 13 does not divide L, then 0xFFFF padding; the generator then ends
+#[kani::proof]
+#[kani::unwind(16)]
+fn lfn_generator_run_short() {
+    let sel: u8 = kani::any();
+    match sel {
+        0 => lfn_run(1),
+        1 => lfn_run(12),
+        2 => lfn_run(13),
+        3 => lfn_run(14),
+        4 => lfn_run(26),
+        _ => lfn_run(27),
+    }
+    kani::cover!(sel == 3);
+}
+
+// @obl props=C03,C15,C16,C19 tier=thorough timeout=3000 fns=LfnEntriesGenerator::next,LfnEntriesGenerator::new feat=fa,fn
+// @bound bounded: name lengths {247, 254, 255} UTF-16 units (19 and 20 slots), all contents symbolic
+// @desc contract of lfn_generator_run_short for the longest names: 255 units give 20 slots with orders 0x54, 19, ..., 1
+#[kani::proof]
+#[kani::unwind(22)]
+fn lfn_generator_run_long() {
+    let sel: u8 = kani::any();
+    match sel {
+        0 => lfn_run(247),
+        1 => lfn_run(254),
+        _ => lfn_run(255),
+    }
+    kani::cover!(sel == 2);
 }
 
 // ---- C08: which slots a listing skips ----
@@ -367,7 +402,7 @@ fn lfn_generator_step() {
 // @obl props=C08,C17 tier=quick fns=DirIter::should_skip_entry
 // @desc forall short / long slots: an entry is skipped iff it is deleted (first byte 0xE5) or (the listing skips volume labels and it is a short entry with the VOLUME_ID attribute); long-name slots are never skipped for their attribute bits
 #[kani::proof]
-#[kani::unwind(4)]
+#[kani::unwind(14)]
 fn should_skip_entry_contract() {
     let fs = crate::fs::verif_kani::mk_fs_plain(
         NdDev::read_only(),
